@@ -14,6 +14,10 @@ func init() { extractors["C10"] = extractC10 }
 //     (deleteEntry moves the successor into it) and does so before calling deleteEntry;
 //   - the two descending iterators declare their own Remove which calls deleteEntry and never assigns it.next
 //     (the inherited ascending Remove would make them revisit the successor).
+//
+// Every method is matched in its alpha-normalised form (`normalise`, c07.go: the receiver prints as _r, parameters as
+// _p0, …, locals as placeholders), so the name chosen for a receiver, parameter or local does not matter; fields and
+// methods (version, next, lastReturned, left, right, owner, deleteEntry, nextEntry, prevEntry) are matched by name.
 func extractC10(repo string, o *Out) {
 	p, err := load(repo, "collections/treemap")
 	if err != nil {
@@ -22,6 +26,7 @@ func extractC10(repo string, o *Out) {
 	}
 	// does the body contain `<recv>.<field>++`
 	incs := func(fd *ast.FuncDecl, text string) bool {
+		defer p.normalise(fd)()
 		found := false
 		ast.Inspect(fd, func(n ast.Node) bool {
 			if s, ok := n.(*ast.IncDecStmt); ok && s.Tok == token.INC && p.Src(s.X) == text {
@@ -50,14 +55,14 @@ func extractC10(repo string, o *Out) {
 	if fd := p.Func("Map", "Clear"); fd == nil {
 		o.problem("method Map.Clear not found")
 	} else {
-		clearBumps = incs(fd, "m.version")
+		clearBumps = incs(fd, "_r.version")
 	}
 	o.bool("clearBumpsVersion", clearBumps, "treemap/map.go: Map.Clear increments m.version")
 
 	for _, f := range []string{"Put", "deleteEntry"} {
 		if fd := p.Func("Map", f); fd == nil {
 			o.problem("method Map.%s not found", f)
-		} else if !incs(fd, "m.version") {
+		} else if !incs(fd, "_r.version") {
 			o.problem("Map.%s no longer increments m.version", f)
 		}
 	}
@@ -66,13 +71,14 @@ func extractC10(repo string, o *Out) {
 	if fd := p.Func("EntryIterator", "Remove"); fd == nil {
 		o.problem("method EntryIterator.Remove not found")
 	} else {
+		restore := p.normalise(fd)
 		var ifPos, delPos token.Pos
 		ast.Inspect(fd, func(n ast.Node) bool {
 			if s, ok := n.(*ast.IfStmt); ok {
 				cond := strings.Join(strings.Fields(p.Src(s.Cond)), " ")
-				if cond == "it.lastReturned.left != nil && it.lastReturned.right != nil" {
-					for _, a := range assigns(s.Body, "it.next") {
-						if len(a.Rhs) == 1 && p.Src(a.Rhs[0]) == "it.lastReturned" {
+				if cond == "_r.lastReturned.left != nil && _r.lastReturned.right != nil" {
+					for _, a := range assigns(s.Body, "_r.next") {
+						if len(a.Rhs) == 1 && p.Src(a.Rhs[0]) == "_r.lastReturned" {
 							ifPos = s.Pos()
 						}
 					}
@@ -80,14 +86,15 @@ func extractC10(repo string, o *Out) {
 			}
 			return true
 		})
-		for _, c := range p.Calls(fd, "it.owner.deleteEntry") {
+		for _, c := range p.Calls(fd, "_r.owner.deleteEntry") {
 			delPos = c.Pos()
 		}
 		retargets = ifPos.IsValid() && delPos.IsValid() && ifPos < delPos
-		if len(assigns(fd, "it.next")) > 1 {
+		if len(assigns(fd, "_r.next")) > 1 {
 			o.problem("EntryIterator.Remove assigns it.next more than once")
 			retargets = false
 		}
+		restore()
 	}
 	o.bool("ascRemoveRetargets", retargets, "treemap/iterator.go: EntryIterator.Remove re-targets it.next to it.lastReturned when that node has two children, before deleteEntry")
 
@@ -96,12 +103,13 @@ func extractC10(repo string, o *Out) {
 		if fd == nil {
 			return false // inherits EntryIterator.Remove through the embedded struct
 		}
-		calls := p.Calls(fd, "it.owner.deleteEntry")
-		if len(calls) != 1 || len(calls[0].Args) != 1 || p.Src(calls[0].Args[0]) != "it.lastReturned" {
+		defer p.normalise(fd)()
+		calls := p.Calls(fd, "_r.owner.deleteEntry")
+		if len(calls) != 1 || len(calls[0].Args) != 1 || p.Src(calls[0].Args[0]) != "_r.lastReturned" {
 			o.problem("%s.Remove does not call it.owner.deleteEntry(it.lastReturned) exactly once", recv)
 			return false
 		}
-		return len(assigns(fd, "it.next")) == 0
+		return len(assigns(fd, "_r.next")) == 0
 	}
 	o.bool("descEntryOwnRemove", own("DescendingEntryIterator"), "treemap/iterator.go: DescendingEntryIterator declares its own Remove, which never assigns it.next")
 	o.bool("descKeyOwnRemove", own("DescendingKeyIterator"), "treemap/iterator.go: DescendingKeyIterator declares its own Remove, which never assigns it.next")
@@ -114,8 +122,10 @@ func extractC10(repo string, o *Out) {
 			o.problem("method %s.Next not found", recv)
 			continue
 		}
-		if len(p.Calls(fd, "it."+want)) != 1 {
+		restore := p.normalise(fd)
+		if len(p.Calls(fd, "_r."+want)) != 1 {
 			o.problem("%s.Next no longer calls it.%s()", recv, want)
 		}
+		restore()
 	}
 }
